@@ -119,8 +119,13 @@ def run_serve_aio(cfg: Dict[str, Any], programs: Dict[str, list],
                 try:
                     await serve(self.app, self.config,
                                 shutdown_trigger=self.trigger.wait if callable_trigger else None)
-                except asyncio.CancelledError:
-                    raise
+                except asyncio.CancelledError as e:
+                    # nobody cancels this task before teardown: a cancellation seen here came
+                    # out of serve() itself
+                    if self.tearing_down:
+                        raise
+                    res.serve_exc = e
+                    self.log.add("serve_raised", exc=type(e).__name__, msg=str(e)[:200])
                 except BaseException as e:
                     if not self.tearing_down:
                         res.serve_exc = e
